@@ -141,6 +141,7 @@ PROPS = {
         "functions": [
             ("rsass::variablescope::Scope::set_variable", "variablescope.rs", r"pub fn set_variable"),
             ("rsass::variablescope::Scope::define_global", "variablescope.rs", r"pub fn define_global"),
+            ("rsass::output::transform::handle_item (Item::For / Each / While arms)", "output/transform.rs", r"Item::For\(name, range, body\) =>"),
         ],
         "bounds": {"quick": "Scope::set_variable for ANY name/value, both flags symbolic, the existing binding arbitrary (absent / null / any value kind); define_global one step (inductive over the parent chain)"},
         "outside": "which transform.rs / eval_body arms create sub-scopes (rules, mixins, functions vs flow control), store_local_values/restore_local_values around @each, parameters and loop variables being local (define() callers); the Mutex<BTreeMap> itself is an opaque event",
